@@ -59,6 +59,30 @@ def _operand_text(e):
     return src(e)
 
 
+def _is_arith(e):
+    return isinstance(e, ast.BinOp) and isinstance(e.op, (ast.Add, ast.Sub, ast.Mult))
+
+
+def _difference(l, r):
+    """(text of the normalised difference l - r, sign) with the leading coefficient made positive; None when neither side
+    is arithmetic (then the operands are kept as they are: they may not be numbers)."""
+    def is_int(x):
+        return isinstance(x, ast.Constant) and isinstance(x.value, int) and not isinstance(x.value, bool)
+    if not (_is_arith(l) or _is_arith(r) or is_int(l) or is_int(r)):
+        return None
+    try:
+        from .linform import poly, show
+        p = poly(ast.BinOp(left=l, op=ast.Sub(), right=r))
+    except Exception:
+        return None
+    if not p:
+        return ("0", 0)
+    lead = sorted(p.items(), key=lambda kv: (len(kv[0]), kv[0]))[-1][1]
+    sign = 1 if lead > 0 else -1
+    q = dict((m, c * sign) for m, c in p.items())
+    return (show(q), sign)
+
+
 def atom(e, truth=True):
     """Canonical (Atom, truth) of an atomic condition."""
     while isinstance(e, ast.UnaryOp) and isinstance(e.op, ast.Not):
@@ -66,6 +90,28 @@ def atom(e, truth=True):
         truth = not truth
     if isinstance(e, ast.Compare) and len(e.ops) == 1:
         op = e.ops[0]
+        if isinstance(op, (ast.Lt, ast.Gt, ast.LtE, ast.GtE, ast.Eq, ast.NotEq)):
+            d = _difference(e.left, e.comparators[0])
+            if d is not None:
+                # l <op> r  ==  (l - r) <op> 0, with the difference in one orientation (len_str - pos < 2 and pos + 2 > len_str agree)
+                text, sign = d
+                zero = ast.Constant(value=0)
+                P = ast.Name(id=text, ctx=ast.Load())
+                if sign == 0:
+                    val = {ast.Lt: False, ast.Gt: False, ast.LtE: True, ast.GtE: True, ast.Eq: True, ast.NotEq: False}[type(op)]
+                    return (Atom(("t", "True")), truth if val else not truth)
+                flip = {ast.Lt: ast.Gt, ast.Gt: ast.Lt, ast.LtE: ast.GtE, ast.GtE: ast.LtE, ast.Eq: ast.Eq, ast.NotEq: ast.NotEq}
+                op2 = type(op) if sign > 0 else flip[type(op)]
+                if op2 is ast.Lt:
+                    return (Atom(("<", text, "0")), truth)
+                if op2 is ast.Gt:
+                    return (Atom(("<", "0", text)), truth)
+                if op2 is ast.GtE:
+                    return (Atom(("<", text, "0")), not truth)
+                if op2 is ast.LtE:
+                    return (Atom(("<", "0", text)), not truth)
+                a_, b_ = sorted(["0", text])
+                return (Atom(("==", a_, b_)), truth if op2 is ast.Eq else not truth)
         l, r = _operand_text(e.left), _operand_text(e.comparators[0])
         if isinstance(op, ast.IsNot):
             return (Atom(("is", l, r)), not truth)
@@ -91,6 +137,11 @@ def atom(e, truth=True):
     if isinstance(e, ast.Call) and isinstance(e.func, ast.Name) and e.func.id == "bool" and len(e.args) == 1:
         return atom(e.args[0], truth)
     return (Atom(("t", src(e))), truth)
+
+
+def _PlainCompare(left, op, right):
+    """A comparison whose operands are already normalised (neither is arithmetic any more)."""
+    return ast.Compare(left=left, ops=[op], comparators=[right])
 
 
 def atom_of(text, truth=True):
@@ -829,7 +880,7 @@ class Summariser(object):
             if not is_while and isinstance(st.iter, ast.Call) and isinstance(st.iter.func, ast.Name) and st.iter.func.id == "enumerate" \
                     and len(st.iter.args) == 1 and not st.iter.keywords and isinstance(st.target, ast.Tuple) and isinstance(st.target.elts[0], ast.Name):
                 # the index of enumerate() is a non-negative int
-                p.conds.append((Atom(("<", "%s@loop%d" % (st.target.elts[0].id, k), "0")), False))
+                p.conds.append(atom(ast.Compare(left=ast.Name(id="%s@loop%d" % (st.target.elts[0].id, k), ctx=ast.Load()), ops=[ast.Lt()], comparators=[ast.Constant(value=0)]), False))
             zero = p.fork()
             zero.conds.append((Atom(("t", "loop#%d iterates" % k)), False))
             p.conds.append((Atom(("t", "loop#%d iterates" % k)), True))
